@@ -14,7 +14,8 @@ ASSUMPTIONS = ["what the text denotes = spec reader + loader model; the loader m
 def _b(ctx, mode, name):
     out = os.path.join(C.WORK, f"b_{name}.json")
     rc, so, se = C.sh([C.PY, os.path.join(C.VERIF, "tools", "bundled_x.py"), "--mode", mode, "--seed", str(ctx["seed"]),
-                       "--tier", ctx["tier"], "--out", out], env=dict(os.environ), timeout=12000)
+                       "--tier", ctx["tier"], "--boost", str(max(ctx.get("boost", 1), 4 if ctx.get("broken") else 1)), "--out", out],
+                      env=dict(os.environ), timeout=12000)
     if rc != 0:
         return {"coverage": {}, "violations": [{"what": f"harness {mode} failed: " + (so + se)[-400:], "identity": "harness-error",
                                                 "replay_payload": {"error": (so + se)[-2000:]}}]}
